@@ -89,7 +89,7 @@ func runOne(kind string, preload bool, limit, passes int, es []a08.Entry, chosen
 
 func runCase(c string) string {
 	f := strings.Split(c, " ")
-	if f[0] == "cpair" {
+	if f[0] == "cpair" || f[0] == "mpair" {
 		return runContentCase(f)
 	}
 	if (len(f) != 7 && len(f) != 8) || f[0] != "pair" {
@@ -214,7 +214,8 @@ func gen(r *vh.Rand, tier string) []string {
 		}
 		add(kind, r.PickInt([]int{0, 0, 1, 2, 3, 5, 9, 17}), r.PickInt([]int{0, 0, 1, 2, 3, 4}), tags, ch)
 	}
-	return append(out, genContent(r, tier)...)
+	out = append(out, genContent(r, tier)...)
+	return append(out, genMw(r, tier)...)
 }
 
 // cells run in worker subprocesses like hC08 (a spinning provider must not disturb later cells)
